@@ -1120,8 +1120,8 @@ def stratum_phase_data():
     atomsets = [("isotropic-U-zero-occupancy-outside-cell",
                  lambda: [Atom("Fe", [-0.25, 1.5, 0.3], occupancy=0.0, Uisoequiv=0.02),
                           Atom("O2-", [0.1, 0.2, 0.3], label="L" * 40, U=np.diag([0.01, 0.02, 0.03]))]),
-                ("120-atoms", lambda: [Atom("C", [t / 200, (t % 7) / 7, 0], label="L%d" % t, occupancy=1 - t / 500)
-                                       for t in range(120)]),
+                ("104-atoms", lambda: [Atom("C", [t / 200, (t % 7) / 7, 0], label="L%d" % t, occupancy=1 - t / 500)
+                                       for t in range(104)]),
                 ("empty-element-and-label", lambda: [Atom("", [0, 0, 0], label=""), Atom("D", [0.5, 0.5, 0.5])])]
     for i in range(len(strings)):
         lname, lat = lattices[i % len(lattices)]
@@ -1140,7 +1140,8 @@ def stratum_phase_data():
         st("phasedata:atoms-" + aname)
         cycle(x, "phasedata:", {"stratum": "phasedata", "phase_name": s, "second_phase_name": pname + "#2",
                                 "scan_unit": unit, "property_name": propname, "lattice": lname, "atoms": aname,
-                                "how": "stratum_phase_data() of tools/impl/c13.py, i = %d" % i}, tag="pd")
+                                "how": "stratum_phase_data() of tools/impl/c13.py, i = %d" % i}, second=(i % 3 != 1),
+              tag="pd")
 
 
 EXTRA = [("phasedata", stratum_phase_data), ("entry", stratum_entry), ("propdtype", stratum_prop_dtype), ("coords", stratum_coords),
